@@ -73,11 +73,12 @@ def shrink(P, wd, case, pred, budget=60):
     cur = case
     steps = 0
     improved = True
-    while improved and steps < budget:
+    deadline = time.time() + 45          # shrinking is a courtesy to the reader of the replay, not part of the verdict
+    while improved and steps < budget and time.time() < deadline:
         improved = False
         for cand in P.shrinks(cur):
             steps += 1
-            if steps > budget:
+            if steps > budget or time.time() > deadline:
                 break
             try:
                 if pred(cand):
